@@ -214,6 +214,21 @@ def _set_power(h, g):
     h.cover("set_power frame")
 
 
+def _method_clause(h, g, rec, b, member, code, what):
+    """DESIGN App. B: the request means 'the zone is under <what> with this value'.  AirTouch 5 has no
+    control-method field (bits 5-4 are 'keep 0'; its setting value switches the method); AirTouch 4 has
+    one, so the frame must say <what>, or 'keep' only where the zone is reported to be under it already."""
+    G = GEN[g]
+    m = (b[1] // 8) % 4
+    if g == 5:
+        h.oblige("bits 5-4 of the AT5 zone control byte are zero", m == 0)
+        return
+    already = h.is_member(h.attr(rec, "control_method"), G["status_mod"] + ":" + G["method_enum"], member)
+    h.oblige(f"control method: '{what}' (keep only if the zone is reported under it already): the request has the "
+             "same meaning as on AirTouch 5, where the setting value selects the method",
+             Or(m == code, And(m == 0, already)))
+
+
 def _set_damper(h, g):
     G = GEN[g]
     rec = zone_record(h, g, "r_")
@@ -239,8 +254,7 @@ def _set_damper(h, g):
     h.oblige("addresses this zone", (b[0] % 64) == h.attr(rec, G["number"]))
     h.oblige("power: keep", And((b[1] % 8) != 1, (b[1] % 8) != 2, (b[1] % 8) != 3, (b[1] % 8) != 5))
     h.oblige("setting = 100 set open percentage", (b[1] // 32) == 4)
-    # DESIGN App. B: the control method may be 'keep' or the one matching the setting, never the opposite / change
-    h.oblige("control method: keep or 'percentage control'", Or(((b[1] // 8) % 4) == 0, ((b[1] // 8) % 4) == 2))
+    _method_clause(h, g, rec, b, "DAMPER", 2, "percentage control")
     h.oblige("value byte = the requested percentage", b[2] == p)
     h.oblige("byte4 keep 0", b[3] == 0)
     h.cover("set_damper frame")
@@ -277,7 +291,7 @@ def _set_target(h, g):
     h.oblige("addresses this zone", (b[0] % 64) == h.attr(rec, G["number"]))
     h.oblige("power: keep", And((b[1] % 8) != 1, (b[1] % 8) != 2, (b[1] % 8) != 3, (b[1] % 8) != 5))
     h.oblige("setting = 101 set target setpoint", (b[1] // 32) == 5)
-    h.oblige("control method: keep or 'temperature control'", Or(((b[1] // 8) % 4) == 0, ((b[1] // 8) % 4) == 3))
+    _method_clause(h, g, rec, b, "TEMPERATURE", 3, "temperature control")
     if g == 4:
         # resolution 1 degC: |value - t| <= 0.5
         h.oblige("value byte = the requested temperature rounded to 1 degC", And(b[2] - t <= 0.5, t - b[2] <= 0.5))
